@@ -182,7 +182,7 @@ func bases(bs ...string) []Desc {
 func main() {
 	r := report.Start("C01", "exploration")
 	started := time.Now()
-	// quick has 60 s of wall time including the build on a shared machine: stop enumerating at 42 s
+	// quick has 60 s of wall time including the build on a shared machine: stop enumerating at 42 s (thorough: 10 min, stop at 8.5 min)
 	// (the run is then reported exhaustive:false, never as a failure)
 	ownCut := false
 	var cutMu sync.Mutex
@@ -190,7 +190,7 @@ func main() {
 		if r.OutOfTime() {
 			return true
 		}
-		if !r.Thorough() && time.Since(started) > 42*time.Second {
+		if (!r.Thorough() && time.Since(started) > 42*time.Second) || time.Since(started) > 510*time.Second {
 			cutMu.Lock()
 			ownCut = true
 			cutMu.Unlock()
@@ -227,14 +227,16 @@ func main() {
 
 	var sweeps []sweep
 	if r.Thorough() {
-		famA := family{long: longAlpha, longLen: 3, full: fullAlpha, fullLen: 2, methods: []string{"GET", "POST", "get", "HEAD"},
+		famA := family{long: longAlpha[:12], longLen: 3, full: fullAlpha, fullLen: 2, methods: []string{"GET", "POST", "get", "HEAD"},
 			mAlpha: []string{"a", "b", "x", "x.y", "c"}, mLen: 3, suffixes: []string{"", "/", "//", "/.", "?q=/a"}, wrongLen: 2, specials: specials, longMeths: []string{"GET"}}
 		famB := family{long: []string{"a", "b", "x", ":", "x.y"}, longLen: 2, full: fullAlpha, fullLen: 1, methods: allMethods,
 			mAlpha: []string{"a", "b", "x", "x.y", "%2F", ""}, mLen: 2, suffixes: []string{"", "/", "//"}, wrongLen: 1, specials: specials, longMeths: []string{"GET", "POST"}}
 		sweeps = []sweep{
-			{"shapes", "routes", descsFromSets(universe, 1, 3, bases("", "/", "/api", "/api/", "/v1/api", "<none>", "/a"),
+			{"shapes", "routes", descsFromSets(universe, 1, 2, bases("", "/", "/api", "/api/", "/v1/api", "<none>", "/a"),
 				assignments([][]string{{"GET"}})), famA},
-			{"methods", "api", descsFromSets(small, 1, 2, bases("", "/api", "/v1/api/"),
+			{"shapes-triples", "routes", descsFromSets(universe, 3, 3, bases("", "/api", "/v1/api/"),
+				assignments([][]string{{"GET"}})), famA},
+			{"methods", "api", descsFromSets(small, 1, 2, bases("", "/v1/api/"),
 				assignments(nonEmptySubsets([]string{"GET", "POST", "DELETE"}))), famB},
 			{"all-verbs", "api", descsFromSets([]string{"/a", "/a/{p}", "/"}, 1, 2, bases("", "/api"),
 				assignments([][]string{{"GET"}, {"PUT", "HEAD"}, {"OPTIONS", "PATCH", "DELETE"}, {"GET", "PUT", "POST", "DELETE", "OPTIONS", "HEAD", "PATCH"}})), famB},
@@ -260,7 +262,7 @@ func main() {
 	r.Set("template_universe", universe)
 	r.Set("template_universe_methods_sweep", small)
 	r.Set("segment_alphabet", fullAlpha)
-	r.Set("segment_alphabet_long_sequences", longAlpha)
+	r.Set("segment_alphabet_long_sequences", sweeps[0].fam.long)
 	r.Set("request_methods", allMethods)
 	r.Set("template_universe_partial_segment_sweep", compU)
 	r.Set("segment_alphabet_partial_segment_sweep", compAlpha)
